@@ -430,9 +430,13 @@ func registerMisc() {
 		if !ok {
 			return concString("<fmt?>"), true
 		}
-		return concString(in.sprintf(f, in.sliceValues(args[1]))), true
+		return in.sprintfSym(f, in.sliceValues(args[1])), true
 	}
-	I["fmt.Sprint"] = func(in *Interp, th *Thread, fn *ssa.Function, args []Value, d func(Value)) (Value, bool) {
+	I["internal/abi.NoEscape"] = func(in *Interp, th *Thread, fn *ssa.Function, args []Value, d func(Value)) (Value, bool) {
+		return args[0], true
+	}
+	I["internal/abi.Escape"] = I["internal/abi.NoEscape"]
+	I["fmt.Sprint"] =func(in *Interp, th *Thread, fn *ssa.Function, args []Value, d func(Value)) (Value, bool) {
 		vs := in.sliceValues(args[0])
 		nat := make([]interface{}, len(vs))
 		for i, a := range vs {
@@ -481,13 +485,13 @@ func registerMisc() {
 				f, ok := strArg(args[1])
 				w := args[0].(IfaceV)
 				if ok && w.T != nil {
-					s := in.sprintf(f, in.sliceValues(args[2]))
+					s := in.sprintfSym(f, in.sliceValues(args[2]))
 					for _, m := range []string{"Write"} {
 						ms := in.prog.MethodSets.MethodSet(w.T)
 						for i := 0; i < ms.Len(); i++ {
 							if ms.At(i).Obj().Name() == m {
 								mf := in.prog.MethodValue(ms.At(i))
-								bs := in.strToBytes(concString(s), types.Typ[types.Uint8])
+								bs := in.strToBytes(s, types.Typ[types.Uint8])
 								in.callThen(th, &FuncV{Fn: mf}, []Value{w.V, bs}, func(r Value) { d(r) })
 								return asyncResult, true
 							}
